@@ -165,6 +165,10 @@ inductive Entry where
 /-- the `case isX(t):` arms of a folding function that work on typed (non go/constant) operands -/
 inductive ArmClass where
   | str | cplx | flt | uint | sint | bool
+  /-- `case isComplex(t), isFloat(t): setConstFloat(n.rval, constant.BinaryOp(constValue(v0), token.X, constValue(v1)))`
+      (or UnaryOp): the exact result rounded once to the type (149d328); `flt` is the arm before: float64 run-time
+      arithmetic stored with SetFloat -/
+  | fltExact
   deriving DecidableEq, Repr, Inhabited
 
 structure FoldFn where
@@ -253,6 +257,25 @@ structure CheckFacts where
       float64 arm (`Float64Val`, then `Convert(t)`): two roundings, wrong for constants within half a float64 ulp of a
       float32 rounding midpoint (seed C03-3) -/
   f32Direct : Bool
+  /-- typecheck.go shift: the left operand is replaced by `constant.ToInt` of itself only when it holds a go/constant
+      value (`if c, ok := c0.rval.Interface().(constant.Value); ok`, 1122c63); before, the type assertion panicked on the
+      Go bool of `true` / `false` -/
+  shiftBoolGuard : Bool
+  /-- typecheck.go binaryExpr, case aAdd: the check of the node type against the operand types is skipped for two
+      untyped constants (`n.typ == nil || isUntypedConst(c0) && isUntypedConst(c1)`, 4bed514) -/
+  addSkipsUntyped : Bool
+  /-- cfg.go binaryExpr, `case aAdd, aSub, aMul, aQuo, aAnd, aOr, aXor, aAndNot:` a node that has a type takes the type
+      of its first typed operand (2988c87); before, it kept the type pushed down by the context -/
+  operandTypeWins : Bool
+  /-- typecheck.go conversion, `string(c)`: the code point is `rune(i)` only when `i == int64(rune(i))`, else −1
+      (a1f1717); before, `rune(int64)` kept the low 32 bits -/
+  codepointChecked : Bool
+  /-- cfg.go isConstString: every constant expression of string type — literal, conversion or concatenation, typed or
+      not, parentheses stripped — has a constant length (a35d2a5); with `lenConstString` only: a literal or a
+      go/constant value -/
+  lenAnyConstString : Bool
+  /-- type.go nodeType2, basicLit: an integer literal of more than N bits is a "constant overflow" (638fc07) -/
+  litBitsMax : Option Nat
   deriving DecidableEq, Repr
 
 structure EvalFacts where
